@@ -1,9 +1,19 @@
 package props
 
 import (
+	"errors"
 	"fmt"
+	"io"
+	"net"
 	"runtime"
+	"strings"
+	"sync"
+	"sync/atomic"
 	"time"
+
+	"github.com/gorilla/websocket"
+
+	"github.com/IBM/fluent-forward-go/fluent/client/ws"
 
 	"verif/harness/core"
 	"verif/harness/fakes"
@@ -69,9 +79,11 @@ func C15(c *core.Ctx) {
 	slack := 250 * time.Millisecond
 	base := runtime.NumGoroutine()
 	total, allEx := 0, true
+	secs := map[string]string{}
 	for _, cf := range wsConfs(c.Thorough()) {
 		cf := cf
-		n, ex := wsExplore(c, "c15", cf, c.N(150, 6000), func(run wsRun, replay map[string]interface{}) {
+		t0 := time.Now()
+		judge := func(run wsRun, replay map[string]interface{}) {
 			// exactly one close call proceeds, the rest report a multiple-close error
 			closers, winners := 0, 0
 			for w, p := range cf.progs {
@@ -121,11 +133,37 @@ func C15(c *core.Ctx) {
 					}
 				}
 			}
-		})
+		}
+		n, ex := wsExplore(c, "c15", cf, c.N(70, 6000), judge)
+		// free running: wall-clock durations are the library's own
+		for k := 0; k < c.N(2, 30); k++ {
+			run := runWs(cf, nil, true)
+			c.Eval()
+			c.Hist("free-running " + cf.name)
+			replay := map[string]interface{}{"configuration": cf.name, "programs": cf.modelProgs(), "peer": cf.modelScript(), "close_frame_write_ok": cf.cfok, "schedule": "free running", "results": renderWsRets(run.rets)}
+			for name, p := range run.panics {
+				c.Violation("panic", "c15-panic", fmt.Sprintf("goroutine %s panicked: %v (%s, free running)", name, p, cf.name), replay)
+			}
+			if run.stuck {
+				c.Violation("deadlock", "c15-stuck", "a call did not return within 5 s ("+cf.name+", free running)", replay)
+				continue
+			}
+			judge(run, replay)
+		}
 		total += n
 		allEx = allEx && ex
 		c.Sample(map[string]interface{}{"configuration": cf.name, "schedules": n, "exhaustive": ex})
+		secs[cf.name] = fmt.Sprintf("%.1fs/%d", time.Since(t0).Seconds(), n)
 	}
+	c.Extra("seconds_per_configuration", secs)
+	// truly parallel closers (the gate's test-and-clear has no yield point inside: only real
+	// parallelism can split it): many rounds of 4 goroutines released at once
+	tPhase := time.Now()
+	c15ParallelClosers(c, c.N(20000, 400000))
+	c.Extra("seconds_parallel_closers", time.Since(tPhase).Seconds())
+	// the close frame cannot be written while the read side is healthy and silent: the
+	// connection must be closed all the same and Listen must return
+	c15CloseFrameFails(c)
 	// no reader goroutine is left behind
 	time.Sleep(50 * time.Millisecond)
 	if left := runtime.NumGoroutine() - base; left > 2 {
@@ -158,7 +196,7 @@ func C16(c *core.Ctx) {
 	total, allEx := 0, true
 	for _, cf := range confs {
 		cf := cf
-		n, ex := wsExplore(c, "c16", cf, c.N(200, 8000), func(run wsRun, replay map[string]interface{}) {
+		n, ex := wsExplore(c, "c16", cf, c.N(90, 8000), func(run wsRun, replay map[string]interface{}) {
 			if run.twoInside != "" {
 				c.Violation("judge-go", "c16-overlap", run.twoInside+" ("+cf.name+")", replay)
 			}
@@ -190,6 +228,11 @@ func C16(c *core.Ctx) {
 		allEx = allEx && ex
 		c.Sample(map[string]interface{}{"configuration": cf.name, "schedules": n, "exhaustive": ex})
 	}
+	// a custom ReadHandler that returns an error for a HEALTHY message: Listen returns the error;
+	// a second Listen must still not put a second reader on the connection
+	c16HandlerError(c)
+	// every failure of the underlying write is reported by Write (whatever the error value)
+	wsWriteErrors(c, "c16")
 	// free running under the race detector: the canary fields of the fake connection are plain
 	// variables touched by every underlying write / read
 	for it := 0; it < c.N(200, 5000); it++ {
@@ -209,4 +252,143 @@ func C16(c *core.Ctx) {
 	}
 	c.Extra("exhaustive", allEx)
 	c.Extra("schedules", total)
+}
+
+func c15ParallelClosers(c *core.Ctx, rounds int) {
+	bad := 0
+	for i := 0; i < rounds && bad < 3; i++ {
+		ec := fakes.NewExtConn()
+		conn, err := ws.NewConnection(ec, ws.ConnectionOptions{CloseDeadline: wsCloseDeadline})
+		if err != nil {
+			panic(err)
+		}
+		const n = 4
+		var wg sync.WaitGroup
+		start := make(chan struct{})
+		var winners int32
+		for k := 0; k < n; k++ {
+			wg.Add(1)
+			go func() {
+				defer wg.Done()
+				<-start
+				if err := conn.Close(); err == nil || !strings.Contains(err.Error(), "multiple close calls") {
+					atomic.AddInt32(&winners, 1)
+				}
+			}()
+		}
+		close(start)
+		wg.Wait()
+		if winners != 1 || ec.NumCloses() != 1 || ec.CloseFrames() > 1 {
+			bad++
+			c.Violation("judge-go", "c15-two-closers", fmt.Sprintf("4 parallel Close calls: %d proceeded, %d close frames, underlying connection closed %d times (round %d, free running)", winners, ec.CloseFrames(), ec.NumCloses(), i),
+				map[string]interface{}{"round": i})
+		}
+	}
+	c.Eval()
+	c.Hist(fmt.Sprintf("free-running: %d rounds of 4 parallel closers", rounds))
+}
+
+func c15CloseFrameFails(c *core.Ctx) {
+	for _, listening := range []bool{true, false} {
+		ec := fakes.NewExtConn()
+		ec.CloseFrameOK = false
+		conn, err := ws.NewConnection(ec, ws.ConnectionOptions{CloseDeadline: wsCloseDeadline})
+		if err != nil {
+			panic(err)
+		}
+		done := make(chan error, 1)
+		if listening {
+			go func() { done <- conn.Listen() }()
+			for i := 0; i < 200 && conn.ConnState()&ws.ConnStateListening == 0; i++ {
+				time.Sleep(time.Millisecond)
+			}
+		}
+		t0 := time.Now()
+		cerr := conn.Close()
+		dur := time.Since(t0)
+		c.Eval()
+		c.Hist(fmt.Sprintf("close frame write fails, listening=%v", listening))
+		replay := map[string]interface{}{"listening": listening, "close_error": fmt.Sprint(cerr)}
+		if ec.NumCloses() != 1 {
+			c.Violation("judge-go", "c15-underlying-close", fmt.Sprintf("the close frame could not be written: the underlying connection was closed %d times", ec.NumCloses()), replay)
+		}
+		if !conn.Closed() || conn.ConnState()&ws.ConnStateClosed == 0 {
+			c.Violation("judge-go", "c15-closed-reverted", "the close frame could not be written: the connection is not marked closed afterwards", replay)
+		}
+		if dur > wsCloseDeadline+250*time.Millisecond {
+			c.Violation("judge-go", "c15-slow-close", fmt.Sprintf("Close took %v", dur), replay)
+		}
+		if listening {
+			select {
+			case <-done:
+			case <-time.After(2 * time.Second):
+				c.Violation("judge-go", "c15-listen-hangs", "Listen did not return within 2 s after Close (close frame write failed)", replay)
+				_ = ec.Close()
+			}
+		}
+	}
+}
+
+func c16HandlerError(c *core.Ctx) {
+	for round := 0; round < 6; round++ {
+		ec := fakes.NewExtConn()
+		ec.Script = peer([]string{"d", "d", "d"}[:1+round%3]...)
+		failAt := int32(1 + round%3) // the handler rejects the last healthy message
+		var seen int32
+		conn, err := ws.NewConnection(ec, ws.ConnectionOptions{CloseDeadline: wsCloseDeadline,
+			ReadHandler: func(cn ws.Connection, _ int, _ []byte, err error) error {
+				if err != nil {
+					_ = cn.Close()
+					return err
+				}
+				if atomic.AddInt32(&seen, 1) == failAt {
+					return errors.New("handler does not like this message")
+				}
+				return nil
+			}})
+		if err != nil {
+			panic(err)
+		}
+		first := make(chan error, 1)
+		rest := make(chan error, 4)
+		go func() { first <- conn.Listen() }()
+		select { // on the pinned code Listen keeps listening; a change may make it return here
+		case <-first:
+		case <-time.After(30 * time.Millisecond):
+		}
+		// whatever the first Listen did, further Listen calls must not add a second reader
+		for k := 0; k < 2; k++ {
+			go func() { rest <- conn.Listen() }()
+			time.Sleep(5 * time.Millisecond)
+		}
+		ec.Lock()
+		max := ec.MaxInside["read"]
+		ec.Unlock()
+		_ = conn.Close()
+		c.Eval()
+		c.Hist("custom handler erroring on a healthy message, repeated Listen")
+		if max > 1 {
+			c.Violation("judge-go", "c16-overlap", fmt.Sprintf("%d goroutines were inside the underlying ReadMessage at the same time (the handler returned an error for healthy message %d, then Listen was called again)", max, failAt), map[string]interface{}{"peer_messages": 1 + round%3})
+			return
+		}
+	}
+}
+
+func wsWriteErrors(c *core.Ctx, sig string) {
+	errs := []error{websocket.ErrCloseSent, net.ErrClosed, io.ErrShortWrite, io.EOF, errors.New("some write failure"), &net.OpError{Op: "write", Err: errors.New("broken pipe")}}
+	for _, we := range errs {
+		ec := fakes.NewExtConn()
+		ec.WriteErr = we
+		conn, err := ws.NewConnection(ec, ws.ConnectionOptions{CloseDeadline: wsCloseDeadline})
+		if err != nil {
+			panic(err)
+		}
+		n, werr := conn.Write([]byte{1, 2, 3})
+		c.Eval()
+		c.Hist("underlying write fails with " + we.Error())
+		if werr == nil || n != 0 {
+			c.Violation("judge-go", sig+"-write-error-swallowed", fmt.Sprintf("the underlying WriteMessage failed with %q but Write returned (%d, %v)", we.Error(), n, werr), map[string]interface{}{"error": we.Error()})
+		}
+		_ = conn.Close()
+	}
 }
